@@ -358,3 +358,43 @@ def record_and_judge(ctx, binary, inputs, tpath, label, keep=lambda r: True, kf=
             case["kf"] = sig
         ctx.violation(what, case)
     return recs, counts
+
+
+# ---------------------------------------------------------------- bin/check <id> <tier> --replay <file>
+def replay(ctx, fields, fills, keep_bad=lambda b: True, keep_rec=lambda r: True, kf_rec=lambda r: None):
+    """Re-run exactly the case stored in a replay file (a TLC case with its predicted results, a call history, or a
+    recorded call that is judged again by TLC)."""
+    rc = json.load(open(ctx.replay))["case"]
+    h = harness(ctx)
+    cpath, tpath, _ = export_cases(ctx, "Gen_Algo_table.cfg", "table")
+    if "history" in rc:
+        import props.c05 as c05
+        hp = os.path.join(ctx.work, "hist1.ndjson")
+        vlib.write_ndjson(hp, [rc["history"]])
+        summary, recs = c05.run_hist(ctx, h, hp, tpath, "hist")
+        for r in recs:
+            for b in r["bad"]:
+                if b.get("got") != b.get("ref"):
+                    case = {"harness": "TestVerifAlgoHist", "history": rc["history"], "mismatch": b}
+                    sig = c05.kf_hist(b)
+                    if sig:
+                        case["kf"] = sig
+                    ctx.violation("hist replay: %s" % json.dumps(b)[:800], case)
+                    break
+    elif "case" in rc:
+        with open(cpath, "w") as fh:
+            fh.write(json.dumps(rc["case"]) + "\n")
+        f2, l2 = rc.get("fields", fields), rc.get("fills", fills)
+        summary, recs = run_cases(ctx, h, cpath, tpath, f2, l2, "replay")
+        report_bad(ctx, h, cpath, tpath, f2, l2, "replay", [(r["line"], r["bad"]) for r in recs], keep=keep_bad)
+    else:
+        inp = rc.get("input")
+        if inp is None:
+            r = rc["record"]
+            inp = {k: r[k] for k in ("p", "cs", "norm", "sch", "kind", "fwd", "wp", "slab", "fill", "rep", "chk") if k in r}
+            inp["rle" if r.get("rle") else "t"] = r.get("rle") or r["t"]
+            if r.get("ref") is not None:
+                inp["withref"] = True
+        record_and_judge(ctx, h, [inp], tpath, "replay", keep=keep_rec, kf=kf_rec)
+    ctx.cov["rule"] = "replay of one stored case"
+    return "model_checking"
